@@ -17,7 +17,9 @@ static std::string dec_buf(bool b64, const Args &a)
     // allocated (callers passing SIZE_MAX as "unbounded") the real block has the size of the input, which bounds
     // the decoded length; the library is still told the huge size
     size_t real = osize > (size_t(1) << 30) ? in.size() + 1 : osize;
-    unsigned char *out = static_cast<unsigned char *>(malloc(real ? real : 1));
+    // the caller's buffer starts at a varying alignment (vh::g_align cycles through 0..7) and ends at the end of the block
+    unsigned char *out_base = static_cast<unsigned char *>(malloc(size_t(g_align) + (real ? real : 1)));
+    unsigned char *out = out_base + g_align;
     memset(out, 0xA5, real ? real : 1);
     ST_ssize_t r = b64 ? ST::base64_decode(s, out, osize) : ST::hex_decode(s, out, osize);
     o << "ret=" << (long long)r;
@@ -26,7 +28,7 @@ static std::string dec_buf(bool b64, const Args &a)
         for (size_t i = size_t(r); i < real; ++i) rest = rest && out[i] == 0xA5;
         o << " data=" << hex(reinterpret_cast<char *>(out), size_t(r)) << " rest=" << (rest ? 1 : 0);
     }
-    free(out);
+    free(out_base);
     return o.str();
 }
 
